@@ -280,4 +280,19 @@ Qed.
 Lemma lv_id_map (U : list (lv T)) : map lv_id U = map lf_id (map v_leaf U).
 Proof. now rewrite map_map. Qed.
 
+Lemma lf_enter_leaf (t : T) (l : leaf T) v o o' : lf_enter t l o = (Some v, o') -> v_leaf v = l.
+Proof. unfold lf_enter. destruct (f_out _); intro E; inversion E; reflexivity. Qed.
+
+Lemma lfs_enter_subl (t : T) : forall (ls : list (leaf T)) o vs o',
+  lfs_enter t ls o = (vs, o') -> subl (map v_leaf vs) ls.
+Proof.
+  induction ls as [|l ls IH]; intros o vs o' E; cbn [lfs_enter] in E.
+  - inversion E; subst. apply subl_nil.
+  - destruct (lf_enter t l o) as [ov o1] eqn:Es.
+    destruct (lfs_enter t ls o1) as [r' o2] eqn:Ep. apply IH in Ep.
+    inversion E; subst. destruct ov as [v|]; cbn [map].
+    + rewrite (lf_enter_leaf _ _ _ _ _ Es). now apply subl_keep.
+    + now apply subl_skip.
+Qed.
+
 End Facts.
